@@ -1226,6 +1226,9 @@ where
         // or as a pixel data fragment (false)
         let mut first = true;
 
+        // whether the current item has yielded its value
+        let mut item_has_value = false;
+
         while let Some(token) = dataset.advance() {
             let token = token.context(ReadTokenSnafu)?;
             match token {
@@ -1242,6 +1245,7 @@ where
                         decoder.read_to_vec(len, &mut data).context(ReadItemSnafu)?;
                         fragments.push(data);
                     }
+                    item_has_value = true;
                 }
                 LazyDataToken::ItemEnd => {
                     // at the end of the first item ensure the presence of
@@ -1249,12 +1253,18 @@ where
                     // are seen as compressed fragments
                     if offset_table.is_none() {
                         offset_table = Some(Vec::new())
+                    } else if !item_has_value {
+                        // a zero-length fragment yields no value token,
+                        // but it is still a fragment
+                        fragments.push(Vec::new());
                     }
                     // the first item is the basic offset table even when it is empty
                     // (an empty item yields no value token)
                     first = false;
                 }
-                LazyDataToken::ItemStart { len: _ } => { /* no-op */ }
+                LazyDataToken::ItemStart { len: _ } => {
+                    item_has_value = false;
+                }
                 LazyDataToken::SequenceEnd => {
                     // end of pixel data
                     break;
